@@ -6,7 +6,8 @@
 (* enumerated (one initial state per scale factor so that all workers are used).           *)
 EXTENDS Bounds
 
-CONSTANTS One, MaxW, MaxX, Mutant
+CONSTANTS One, MaxW, MaxX, Mutant,
+          Half, MaxBigW      \* word of 2 * Half units; image sizes 1..MaxBigW pixels (beyond Half / One)
 
 VARIABLES s, done        \* s: scale factor (units per destination pixel)
 
@@ -43,4 +44,38 @@ CornersSuffice ==
         x1 < x2 =>
           ((NearestInside(Pos(t, x1), w, One) /\ NearestInside(Pos(t, x2 - 1), w, One))
              => \A x \in x1..(x2 - 1) : NearestInside(Pos(t, x), w, One))
+
+(* ---- WideIndex (split evaluation used by the trace specification for coordinates up to 2^17) is the plain     *)
+(* ---- floor wherever the plain evaluation fits TLC's integers: one matrix row per initial state s              *)
+SplitSamples == {-131072, -70001, -65537, -32768, -257, -256, -255, -3, -1, 0, 1, 2, 255, 256, 257, 4095, 4096,
+                 32767, 32768, 65535, 65536}
+SplitExact ==
+    done =>
+    LET m1 == s * 4099  m2 == s * 1021 - 7 IN        \* |m1| <= 2 * One * 4099 (~ 2^17): direct products fit for |x| <= 4096
+    \A x \in {v \in SplitSamples : v >= -4096 /\ v <= 4096}, y \in {-300, -1, 0, 1, 255, 256, 1000},
+       m3 \in {-2147483647 - 1, -65537, -65536, -1, 0, 1, 65535, 65536, 2147483647 - 1048576 * 2},
+       off \in {-1, -32768, 32768, 0} :
+        LET half == FloorDiv2(m1 + m2 + 1)
+            direct == m1 * x + m2 * y + half + off IN
+        \* m3 is added after the division (it may be anything a 32-bit word holds): floor ((d + m3) / 65536)
+        WideIndex(m1, m2, m3, x, y, off) =
+            (m3 \div 65536) + ((direct + (m3 % 65536)) \div 65536)
+(* the split form never leaves the 32-bit range on the domain WFits admits (TLC would report the overflow) *)
+SplitTotal ==
+    done =>
+    \A m1 \in {-1048576, 1048576, s * 32768}, m2 \in {-1048576, 0, 1048576}, x \in SplitSamples, y \in {-131072, 0, 131072},
+       m3 \in {-2147483647 - 1, 0, 2147483647} :
+        WFits(m1, m2, x, y) => WideIndex(m1, m2, m3, x, y, -32768) <= WideIndex(m1, m2, m3, x, y, 32768)
+
+(* ---- dimensions converted to fixed point: the end-relative addressing of the scaled main loops ---- *)
+(* Guard = "all": every BITS image of Half / One - 1 pixels or more is refused (analyze_extent);          *)
+(* Guard = "repeat_only": the refusal is limited to repeating images (the mutant).  For every admitted    *)
+(* image and every representable position inside it the pixel addressed must be the pixel sampled.        *)
+Guard == IF Mutant = "repeat_only" THEN "repeat_only" ELSE "all"
+Admitted(w, rep) == (Guard = "all" \/ rep # "none") => w < Half \div One - 1
+WidthSound ==
+    done =>
+    \A w \in 1..MaxBigW, rep \in {"none", "pad", "normal"} :
+        Admitted(w, rep) =>
+            \A vx \in 0..(Lo(w * One, Half) - 1) : EndRelativeIndex(w, vx, One, Half) = vx \div One
 =============================================================================
